@@ -1047,6 +1047,14 @@ class Engine:
                 val = SDefaultDict(decl.k, decl.v, z3.K(ks, False), comps)
             if len(self.frames) == 1 and self.contract is not None and tgt.id in self.contract.locals and isinstance(val, CList):
                 val = to_slist(val, self.contract.locals[tgt.id].t)
+            if len(self.frames) == 1 and self.contract is not None and tgt.id in self.contract.locals and isinstance(val, SDict) \
+                    and type(val.v).__name__ == "TConst" and val.v.value is None and isinstance(self.contract.locals[tgt.id], TDict) \
+                    and type(self.contract.locals[tgt.id].v).__name__ == "TOpt":
+                # {key: None for ...} bound to a declared local whose values are optional: every value is None
+                dt = self.contract.locals[tgt.id]
+                ks = key_sort_of(dt.k)
+                comps_ = [z3.K(ks, True)] + [z3.K(ks, z3.FreshConst(srt, "dv")) for srt in dt.v.t.sorts()]
+                val = SDict(dt.k, dt.v, val.dom, comps_)
             if len(self.frames) == 1 and self.contract is not None and tgt.id in self.contract.locals and isinstance(val, AList) \
                     and isinstance(self.contract.locals[tgt.id], TDict):
                 # a dict literal with symbolic keys bound to a declared local: the empty dict with the entries stored in order
